@@ -25,6 +25,7 @@ ROOT = os.path.dirname(os.path.abspath(__file__))
 SPEC = os.path.join(ROOT, "spec")
 HARNESS_DIR = os.path.join(ROOT, "harness")
 HARNESS_BIN = os.path.join(HARNESS_DIR, "target", "release", "t2n-harness")
+THREADS_BIN = os.path.join(HARNESS_DIR, "target", "release", "t2n-threads")
 WORK = os.path.join(ROOT, "work")
 REPLAY = os.path.join(ROOT, "replay")
 EVIDENCE = os.path.join(ROOT, "evidence")
@@ -87,12 +88,38 @@ def build_harness():
         env["CARGO_NET_OFFLINE"] = "true"
         env.pop("RUSTFLAGS", None)
         t = time.time()
-        p = subprocess.run(["cargo", "build", "--release", "--offline"], cwd=HARNESS_DIR, env=env,
+        p = subprocess.run(["cargo", "build", "--release", "--offline", "--bin", "t2n-harness"], cwd=HARNESS_DIR, env=env,
                            stdout=subprocess.PIPE, stderr=subprocess.STDOUT, text=True)
         if p.returncode != 0:
             sys.stderr.write(p.stdout[-6000:])
             raise ToolError("harness build failed (the tree under /repo does not compile with the hooks enabled)")
         log("harness built in %.1fs" % (time.time() - t))
+    finally:
+        fcntl.flock(lock, fcntl.LOCK_UN)
+        lock.close()
+
+
+def build_threads_bin():
+    """Builds the C14 binary, the only code that needs the interpreters to be Send + Sync.  Returns None when it built, or
+    the compiler's message when the build failed BECAUSE an interpreter type is not Send / Sync (that is a C14 violation,
+    not a tool error); any other build failure is a tool error."""
+    lock = open(os.path.join(WORK, ".build.lock"), "w")
+    fcntl.flock(lock, fcntl.LOCK_EX)
+    try:
+        env = dict(os.environ)
+        env["CARGO_NET_OFFLINE"] = "true"
+        env.pop("RUSTFLAGS", None)
+        t = time.time()
+        p = subprocess.run(["cargo", "build", "--release", "--offline", "--bin", "t2n-threads"], cwd=HARNESS_DIR, env=env,
+                           stdout=subprocess.PIPE, stderr=subprocess.STDOUT, text=True)
+        if p.returncode == 0:
+            log("threads binary built in %.1fs" % (time.time() - t))
+            return None
+        m = re.search(r"error\[E0277\][^\n]*cannot be (sent|shared) between threads safely.*?(?=\nerror|\Z)", p.stdout, re.S)
+        if m:
+            return m.group(0)[:3000]
+        sys.stderr.write(p.stdout[-6000:])
+        raise ToolError("threads binary build failed")
     finally:
         fcntl.flock(lock, fcntl.LOCK_UN)
         lock.close()
@@ -323,7 +350,8 @@ def harness(ctx, mode, req, obs, args=(), timeout=1800):
     for the caller (returncode attached)."""
     t = time.time()
     try:
-        p = subprocess.run([HARNESS_BIN, mode, req, obs] + [str(a) for a in args], stdout=subprocess.PIPE,
+        cmd = [THREADS_BIN, req, obs] if mode == "threads" else [HARNESS_BIN, mode, req, obs]
+        p = subprocess.run(cmd + [str(a) for a in args], stdout=subprocess.PIPE,
                            stderr=subprocess.PIPE, timeout=timeout)
         rc = p.returncode
         so, se = p.stdout, p.stderr
